@@ -53,6 +53,7 @@ type FuncContract struct {
 	Pure     bool
 	Inline   bool // always inline at call sites (even if contracted)
 	Loops    map[int]*LoopContract
+	IsInit   bool
 	Line     int
 	Mangled  string
 	// bound objects
@@ -422,17 +423,25 @@ func (g *GhostGen) Generate() (string, []string) {
 	for _, name := range names {
 		fc := g.cs.Funcs[name]
 		fn := lookupFunc(g.pkg, name)
-		if fn == nil {
-			errs = append(errs, fmt.Sprintf("contract-target: func %s not found (contract line %d)", name, fc.Line))
-			continue
+		var params, results []paramInfo
+		if name == "init" {
+			fc.IsInit = true
+		} else {
+			if fn == nil {
+				errs = append(errs, fmt.Sprintf("contract-target: func %s not found (contract line %d)", name, fc.Line))
+				continue
+			}
+			fc.Obj = fn
+			params, results = funcParams(fn)
 		}
-		fc.Obj = fn
-		params, results := funcParams(fn)
 		known := map[string]bool{}
 		for _, p := range params {
 			known[p.name] = true
 		}
-		fd := g.funcDecl(fn)
+		var fd *ast.FuncDecl
+		if fn != nil {
+			fd = g.funcDecl(fn)
+		}
 		// olds: type by CheckExpr in function scope
 		var olds []paramInfo
 		for i, o := range fc.Olds {
@@ -441,7 +450,10 @@ func (g *GhostGen) Generate() (string, []string) {
 				errs = append(errs, fmt.Sprintf("contract %s old %s: %v", name, o.Name, err))
 				continue
 			}
-			pos := fn.Pos()
+			pos := token.NoPos
+			if fn != nil {
+				pos = fn.Pos()
+			}
 			if fd != nil && fd.Body != nil {
 				pos = fd.Body.Lbrace + 1
 			}
